@@ -2,6 +2,8 @@
 import json, os, subprocess, itertools, random, re, time, hashlib
 
 SIG12 = [65, 97, 48, 32, 42, 33, 94, 95, 0, 128, 225, 13]
+# for the simulation part: further classes (backtick = Text shift 3 value 0, 0xC2 = upper shift + C40 basic, DEL, '?', '>' ...)
+SIG_EXT = SIG12 + [96, 194, 127, 63, 62, 90, 122, 57, 31, 160, 255, 224, 91, 64]
 CAPS_ALL = [3, 5, 8, 10, 12, 16, 18, 22, 24, 30, 32, 36, 38, 43, 44, 49, 56, 62, 63, 64, 70, 72, 80, 84, 86, 90, 108, 114, 118, 144,
             174, 204, 280, 368, 456, 576, 696, 816, 1050, 1304, 1558]
 CLASSES = [b"ABCDEFGHIJKLMNOPQRSTUVWXYZ", b"abcdefghijklmnopqrstuvwxyz", b"0123456789", b"ABC019 *>\r", bytes(range(32, 95)),
@@ -87,6 +89,17 @@ def c04_job(pid, job, bins, tier, seed, workdir, ev, drv):
     # (2) simulation: random behaviours for longer inputs (long Base256 runs, 2-byte length fields, many segments)
     longf = os.path.join(workdir, "genw-long.ndjson")
     with open(longf, "w") as f:
+        # short inputs over the extended alphabet, generous capacities (almost every walk completes)
+        for k in range(400 if thorough else 150):
+            n = rnd.choice([3, 4, 4, 5, 5, 6, 7, 8, 10])
+            s = [rnd.choice(SIG_EXT) for _ in range(n)]
+            if rnd.random() < 0.5:
+                # one class run with a single odd character inside
+                c = rnd.choice(CLASSES[:5])
+                s = [rnd.choice(c) for _ in range(n)]
+                s[rnd.randrange(n)] = rnd.choice(SIG_EXT)
+            caps = [c for c in CAPS_ALL if n * 0.6 <= c <= 3 * n + 10][:6]
+            f.write(json.dumps({"input": s, "caps": caps, "prefixes": ["none", "macro06", "fnc1"] if k % 5 == 0 else ["none"]}) + "\n")
         for k in range(90 if thorough else 40):
             n = rnd.choice([4, 6, 9, 13, 20, 35, 60, 120, 260, 300, 700])
             s = []
@@ -97,7 +110,7 @@ def c04_job(pid, job, bins, tier, seed, workdir, ev, drv):
             caps = [c for c in CAPS_ALL if n * 0.5 <= c <= 2.3 * n + 6][:8] or [1558]
             f.write(json.dumps({"input": s, "caps": caps, "prefixes": ["none", "macro05", "fnc1"]}) + "\n")
     lines2 = os.path.join(workdir, "genw-long.lines")
-    num = 4000 if thorough else 700
+    num = 6000 if thorough else 1500
     gen, dist = run_tlc_lines(drv, "GenW", "GenW.cfg", {"INPUTS": longf}, workdir, lines2,
                               extra=("-simulate", "num=%d" % num, "-depth", "3000", "-seed", str(seed)), simulate=True)
     ev["transitions"] += gen
